@@ -19,7 +19,7 @@ import RTV.Gen.CharTables
   rcn <culture> <cps>           (resolve_composite_number)        -> n
   nts <tok cps>...              (English normalize_token_set)     -> tok;tok;...
   spell <n> <andHundred> <andFinal> <hyphen> <ord>                -> text cps | tok;tok;...
-  spelleu <es|fr|pt|de|it|nl> <n>  (n < 1000)                    -> text cps | tok;tok;...
+  spelleu <es|fr|pt|de|it|nl> <n>  (n < 1000; es pt de nl: n < 10^6)                  -> text cps | tok;tok;...
   spellcjk <zh|ja> <n>          (n < 10000)                       -> text cps
   cjk <zh|ja> <cps>             (CJK get_int_value core)          -> n
   cfg <culture>                                                   -> decSep nonDecSep multiDec nonStd lf -/
@@ -138,9 +138,12 @@ def hSpellEu : Handler
     let sp : Option EuSpell := match cu with
       | "es" => some esSpell | "fr" => some frSpell | "pt" => some ptSpell
       | "de" => some deSpell | "it" => some itSpell | "nl" => some nlSpell | _ => none
-    match sp with
-    | some s => let r := spellEu s (parseNat n); showCps r.1 ++ "|" ++ ";".intercalate (r.2.map showCps)
-    | none => "bad-culture"
+    let big : Option EuBig := match cu with
+      | "es" => some esBig | "pt" => some ptBig | "de" => some deBig | "nl" => some nlBig | _ => none
+    match sp, big with
+    | _, some b => let r := spellEuAll b (parseNat n); showCps r.1 ++ "|" ++ ";".intercalate (r.2.map showCps)
+    | some s, none => let r := spellEu s (parseNat n); showCps r.1 ++ "|" ++ ";".intercalate (r.2.map showCps)
+    | none, none => "bad-culture"
   | _ => "bad-op"
 
 def hSpellCjk : Handler
